@@ -1,4 +1,7 @@
+#[cfg(not(feature = "verif"))]
 use std::collections::HashMap;
+#[cfg(feature = "verif")]
+use crate::verif::HashMap;
 use std::fmt;
 
 use aho_corasick::AhoCorasick;
@@ -623,6 +626,18 @@ pub(crate) fn solve_expression(
             };
             let mut count = 0;
             let mut res = SolverResult::Missing;
+            #[cfg(feature = "verif")]
+            {
+                if c == 0 && crate::verif::collapse_missing() {
+                    for expression in group {
+                        if solve_expression(expression, identifiers, document) == SolverResult::True
+                        {
+                            return SolverResult::False;
+                        }
+                    }
+                    return SolverResult::True;
+                }
+            }
             for expression in group {
                 if c == 0 {
                     match solve_expression(expression, identifiers, document) {
@@ -699,6 +714,15 @@ pub(crate) fn solve_expression(
             res
         }
         Expression::Negate(ref e) => {
+            #[cfg(feature = "verif")]
+            {
+                if crate::verif::collapse_missing() {
+                    return match solve_expression(e.as_ref(), identifiers, document) {
+                        SolverResult::True => SolverResult::False,
+                        _ => SolverResult::True,
+                    };
+                }
+            }
             let res = match solve_expression(e.as_ref(), identifiers, document) {
                 SolverResult::True => SolverResult::False,
                 SolverResult::False => SolverResult::True,
@@ -1105,6 +1129,15 @@ fn match_of(
     document: &dyn Document,
     count: u64,
 ) -> SolverResult {
+    #[cfg(feature = "verif")]
+    {
+        if count == 0 && crate::verif::collapse_missing() {
+            return match solve_expression(expression, identifiers, document) {
+                SolverResult::True => SolverResult::False,
+                _ => SolverResult::True,
+            };
+        }
+    }
     if count == 0 {
         return match solve_expression(expression, identifiers, document) {
             SolverResult::True => SolverResult::False,
